@@ -3,8 +3,12 @@
 //
 // case kinds (one per line, "<lhs> | <implementation result>"):
 //   prec b                         ComputeRAnsPrecisionFromUniqueSymbolsBitLength(b)
-//   es <method> <auto> <lvl> <nc> <syms>   EncodeSymbols; method = scheme (forced, or read off the first byte when auto=1),
-//                                  lvl = compression level or u (unset)      -> <hex> amok=1 | fail
+//   es <method> <auto> <lvl> <nc> <bl> <syms>   EncodeSymbols; method = scheme (forced, or read off the first byte when auto=1),
+//                                  lvl = compression level or u (unset), bl = the raw scheme's unique-symbols bit length read off the
+//                                  second byte of the output (POLICY like the scheme; - when there is none)  -> <hex> amok=1 | fail
+//   rbl <nu> <lvl>                 the level -> bit-length function of the current code (harness replica of EncodeRawSymbols' arithmetic;
+//                                  the implementation's own choice is compared with it in the harness: a difference is the # note
+//                                  raw-bit-length-policy, not a disagreement)                          -> <bit length>
 //   ds <ver> <n> <nc> <hex>        DecodeSymbols on arbitrary bytes           -> ok <vals> <remaining> | fail
 //   rse <N> <freqs> <syms>         RAnsSymbolEncoder<N>: Create, StartEncoding, EncodeSymbol (reverse), EndEncoding
 //                                                                           -> c=1 <hex> | c=0
@@ -30,6 +34,8 @@
 #include "draco/core/varint_encoding.h"
 #include <cmath>
 #include <cstring>
+#include <sys/wait.h>
+#include <unistd.h>
 // num_expected_bits_ of RAnsSymbolEncoder is private and has no accessor; the harness needs it to tie the theorem about
 // the write area.  Every standard header and every other draco header used by rans_symbol_encoder.h (ans.h included)
 // is already included above, so only the class template RAnsSymbolEncoder is affected.
@@ -110,13 +116,15 @@ static bool create_ok(int N, const std::vector<uint64_t> &f) {
 // ---------------------------------------------------------------- the rANS write area (StartEncoding reserves, nobody checks)
 // Runs RAnsSymbolEncoder<N> directly on (freqs, syms) -- every symbol occurs at most freqs[symbol] times -- inside a
 // vector whose CAPACITY is far larger than anything the coder can write, so that a write past the reserved SIZE stays
-// inside the allocation and can be reported instead of corrupting the heap.  Returns false when Create fails.
-enum { COV_AREA = 9, COV_AREA_MODEL = 10, COV_AREA_MAXPCT = 11 };
+// inside the allocation and can be reported instead of corrupting the heap.  Returns 0 when Create fails, 2 when the area
+// overflowed (the caller then keeps the library away from that input: it would overflow its heap buffer), else 1.
+static size_t count_used_fwd(const std::vector<uint64_t> &f) { size_t u = 0; for (auto x : f) u += x > 0; return u; }
+enum { COV_AREA = 9, COV_AREA_MODEL = 10, COV_AREA_MAXPCT = 11, COV_POLICY = 12 };
 template <int N>
-static bool area_case_N(Out &o, const std::vector<uint64_t> &freqs, const std::vector<uint32_t> &syms, bool emit, const std::string &ctx) {
+static int area_case_N(Out &o, const std::vector<uint64_t> &freqs, const std::vector<uint32_t> &syms, bool emit, const std::string &ctx) {
   RAnsSymbolEncoder<N> e; EncoderBuffer eb;
   eb.buffer()->reserve(syms.size() * 4 + freqs.size() * 4 + (1 << 16));
-  if (!e.Create(freqs.data(), (int)freqs.size(), &eb)) return false;
+  if (!e.Create(freqs.data(), (int)freqs.size(), &eb)) return 0;
   const uint64_t E = e.num_expected_bits_;
   const size_t off0 = eb.size();
   e.StartEncoding(&eb);
@@ -130,19 +138,22 @@ static bool area_case_N(Out &o, const std::vector<uint64_t> &freqs, const std::v
   g_cov[COV_AREA]++;
   if (reserved > 0) g_cov[COV_AREA_MAXPCT] = std::max<long>(g_cov[COV_AREA_MAXPCT], (long)(used * 100 / reserved));
   std::string lhs = "rwa " + S(N) + " " + U(E) + " " + csv(freqs) + " " + csv(syms);
-  if (used > reserved)
+  if (emit || (used > reserved && count_used_fwd(freqs) <= 300)) { o.c(lhs, "w=" + U(w) + " used=" + U(used) + " res=" + U(reserved) + " e=ok"); g_cov[COV_AREA_MODEL]++; }
+  if (used > reserved) {
     o.fail("rANS write area overflow (" + ctx + "): StartEncoding reserved " + U(reserved) + " bytes (num_expected_bits_=" + U(E) + "), " +
            U(w) + " bytes written, " + U(used) + " bytes touched: " + lhs);
-  if (emit) { o.c(lhs, "w=" + U(w) + " used=" + U(used) + " res=" + U(reserved) + " e=ok"); g_cov[COV_AREA_MODEL]++; }
-  return true;
+    fflush(o.f);
+    return 2;
+  }
+  return 1;
 }
-static bool area_case(Out &o, int N, const std::vector<uint64_t> &f, const std::vector<uint32_t> &s, bool emit, const std::string &ctx) {
+static int area_case(Out &o, int N, const std::vector<uint64_t> &f, const std::vector<uint32_t> &s, bool emit, const std::string &ctx) {
   switch (N) {
 #define C(k) case k: return area_case_N<k>(o, f, s, emit, ctx);
     C(1) C(2) C(3) C(4) C(5) C(6) C(7) C(8) C(9) C(10) C(11) C(12) C(13) C(14) C(15) C(16) C(17) C(18)
 #undef C
   }
-  return false;
+  return 0;
 }
 static size_t count_used(const std::vector<uint64_t> &f) { size_t u = 0; for (auto x : f) u += x > 0; return u; }
 // the bit length EncodeRawSymbols derives from the number of unique symbols and the level (used only to pick the
@@ -221,6 +232,26 @@ static void malformed_from(Out &o, Rng &r, const std::vector<uint8_t> &good, uin
   }
 }
 
+// Create()'s result for the table the chosen scheme builds (its callers ignore it): false = the stream was produced from
+// an unfinished table.
+static bool created_ok(const uint8_t *bytes, size_t nbytes, const std::vector<uint32_t> &syms, int nc, std::string *what) {
+  if (nbytes == 0 || syms.empty()) return true;
+  if (bytes[0] == SYMBOL_CODING_RAW && nbytes > 1) {
+    uint32_t mx = *std::max_element(syms.begin(), syms.end());
+    std::vector<uint64_t> f((size_t)mx + 1, 0); for (auto s : syms) f[s]++;
+    *what = "raw bits=" + S(bytes[1]);
+    return create_ok(bytes[1], f);
+  }
+  if (bytes[0] == SYMBOL_CODING_TAGGED) {
+    std::vector<uint64_t> f(32, 0);
+    int c = std::max(nc, 1);
+    for (size_t i = 0; i + c <= syms.size(); i += c) { uint32_t m = 0; for (int j = 0; j < c; j++) m = std::max(m, syms[i + j]); int bl = 1; while (bl < 32 && (m >> bl)) bl++; f[bl & 31]++; }
+    *what = "tagged";
+    return create_ok(5, f);
+  }
+  return true;
+}
+
 // ---------------------------------------------------------------- EncodeSymbols case
 static void enc_case(Out &o, Rng &r, const std::vector<uint32_t> &syms, int nc, int forced, int lvl, int n_malformed, bool area_model = false) {
   Options opt;
@@ -235,19 +266,60 @@ static void enc_case(Out &o, Rng &r, const std::vector<uint32_t> &syms, int nc, 
     if ((mx >> 31) == 0 && forced != 1) {   // tags: RAnsSymbolEncoder<5> on the bit lengths
       std::vector<uint64_t> f(32, 0); std::vector<uint32_t> tags;
       for (size_t i = 0; i + c <= syms.size(); i += c) { uint32_t m = 0; for (int j = 0; j < c; j++) m = std::max(m, syms[i + j]); int bl = 1; while (bl < 32 && (m >> bl)) bl++; f[bl & 31]++; tags.push_back(bl & 31); }
-      area_case(o, 5, f, tags, want_model, "tags of the tagged scheme");
+      if (area_case(o, 5, f, tags, want_model, "tags of the tagged scheme") == 2) return;
     }
     if ((mx >> 18) == 0 && forced != 0) {   // raw: RAnsSymbolEncoder<bit length> on the values
       std::vector<uint64_t> f((size_t)mx + 1, 0); for (auto s : syms) f[s]++;
       size_t nu = count_used(f);
-      if (nu < (1u << 18)) area_case(o, raw_bits_for(nu, lvl), f, syms, want_model && nu <= 600, "raw scheme");
+      if (nu < (1u << 18) && area_case(o, raw_bits_for(nu, lvl), f, syms, want_model && nu <= 300, "raw scheme") == 2) return;
+    }
+  }
+  // EncodeSymbols ignores Create()'s result; when Create fails it goes on with an unfinished table and may corrupt the
+  // heap or never return.  Probe the call in a child process first, so that such an input is reported (with the input)
+  // instead of taking the harness down.
+  if (!syms.empty()) {
+    fflush(NULL);
+    pid_t pid = fork();
+    if (pid == 0) {
+      alarm(30);
+      EncoderBuffer pb; std::string what;
+      bool pok = EncodeSymbols(syms.data(), (int)syms.size(), nc, &opt, &pb);
+      _exit(pok && !created_ok((const uint8_t *)pb.data(), pb.size(), syms, nc, &what) ? 3 : 0);
+    }
+    if (pid > 0) {
+      int st = 0; waitpid(pid, &st, 0);
+      if (WIFEXITED(st) && WEXITSTATUS(st) == 3) {
+        o.fail("Create returned false but EncodeSymbols returned true (found in the probe process; the call is not repeated here): es " + S(forced) + " " +
+               S(forced >= 0 ? 0 : 1) + " " + (lvl >= 0 ? S(lvl) : std::string("u")) + " " + S(nc) + " " + csv(syms));
+        g_cov[COV_CREATE_FALSE]++; fflush(o.f);
+        return;
+      }
+      if (WIFSIGNALED(st)) {
+        o.fail("EncodeSymbols died with signal " + S(WTERMSIG(st)) + " (heap corruption / endless loop) on: es " + S(forced) + " " + S(forced >= 0 ? 0 : 1) + " " +
+               (lvl >= 0 ? S(lvl) : std::string("u")) + " " + S(nc) + " " + csv(syms));
+        fflush(o.f);
+        return;
+      }
     }
   }
   EncoderBuffer eb;
   bool ok = EncodeSymbols(syms.data(), (int)syms.size(), nc, &opt, &eb);
   std::vector<uint8_t> bytes((const uint8_t *)eb.data(), (const uint8_t *)eb.data() + eb.size());
   int method = forced >= 0 ? forced : (bytes.empty() ? 0 : bytes[0]);
-  std::string lhs = "es " + S(method) + " " + S(forced >= 0 ? 0 : 1) + " " + (lvl >= 0 ? S(lvl) : std::string("u")) + " " + S(nc) + " " + csv(syms);
+  // the raw bit length is stored in the stream and the decoder just reads it: policy, read off the output like the scheme
+  std::string blf = "-";
+  if (ok && method == SYMBOL_CODING_RAW && bytes.size() > 1 && bytes[0] == SYMBOL_CODING_RAW) {
+    blf = S(bytes[1]);
+    std::set<uint32_t> uniq(syms.begin(), syms.end());
+    int expect = raw_bits_for(uniq.size(), lvl);
+    if (expect != bytes[1]) {
+      if (g_cov[COV_POLICY]++ == 0)
+        o.note("policy raw-bit-length-policy: EncodeRawSymbols chose unique-symbols bit length " + S(bytes[1]) + " where the level -> bit-length function the model calls "
+               "default_raw_bit_length gives " + S(expect) + " (unique=" + U(uniq.size()) + " level=" + (lvl >= 0 ? S(lvl) : std::string("unset")) +
+               "); the value is stored in the stream, every admissible value decodes (C08_symbols_with_roundtrips); further differences are only counted");
+    }
+  }
+  std::string lhs = "es " + S(method) + " " + S(forced >= 0 ? 0 : 1) + " " + (lvl >= 0 ? S(lvl) : std::string("u")) + " " + S(nc) + " " + blf + " " + csv(syms);
   g_cov[forced == 0 ? COV_TAGGED : forced == 1 ? COV_RAW : COV_AUTO]++;
   if (syms.size() >= 20000) g_cov[COV_BIG]++;
   if (!ok) { o.c(lhs, "fail"); g_cov[COV_ENC_FAIL]++; return; }
@@ -255,18 +327,8 @@ static void enc_case(Out &o, Rng &r, const std::vector<uint32_t> &syms, int nc, 
   if (syms.empty()) return;
   // Create()'s result, which EncodeTaggedSymbols / EncodeRawSymbolsInternal drop
   {
-    bool cok = true; std::string what;
-    if (bytes[0] == SYMBOL_CODING_RAW && bytes.size() > 1) {
-      uint32_t mx = *std::max_element(syms.begin(), syms.end());
-      std::vector<uint64_t> f((size_t)mx + 1, 0); for (auto s : syms) f[s]++;
-      cok = create_ok(bytes[1], f); what = "raw bits=" + S(bytes[1]);
-    } else if (bytes[0] == SYMBOL_CODING_TAGGED) {
-      std::vector<uint64_t> f(32, 0);
-      int c = std::max(nc, 1);
-      for (size_t i = 0; i < syms.size(); i += c) { uint32_t m = 0; for (int j = 0; j < c; j++) m = std::max(m, syms[i + j]); int bl = 1; while (bl < 32 && (m >> bl)) bl++; f[bl & 31]++; }
-      cok = create_ok(5, f); what = "tagged";
-    }
-    if (!cok) { o.fail("Create returned false but EncodeSymbols returned true (" + what + "): " + lhs); g_cov[COV_CREATE_FALSE]++; }
+    std::string what;
+    if (!created_ok(bytes.data(), bytes.size(), syms, nc, &what)) { o.fail("Create returned false but EncodeSymbols returned true (" + what + "): " + lhs); g_cov[COV_CREATE_FALSE]++; }
   }
   // the property on the real library: decode with a sentinel behind the block
   std::vector<uint8_t> with = bytes; with.insert(with.end(), kSentinel, kSentinel + 3);
@@ -323,6 +385,8 @@ template <int N>
 static void rse_case_N(Out &o, Rng &r, const std::vector<uint64_t> &freqs, const std::vector<uint32_t> &syms, int n_malformed) {
   RAnsSymbolEncoder<N> e; EncoderBuffer eb;
   std::string lhs = "rse " + S(N) + " " + csv(freqs) + " " + csv(syms);
+  // every symbol is encoded at most as often as its frequency says (see the callers): the reserved area must suffice
+  if (area_case_N<N>(o, freqs, syms, count_used(freqs) <= 300, "RAnsSymbolEncoder<" + S(N) + "> directly") == 2) return;
   bool c = e.Create(freqs.data(), (int)freqs.size(), &eb);
   if (!c) { o.c(lhs, "c=0"); g_cov[COV_CREATE_FALSE]++; return; }
   e.StartEncoding(&eb);
@@ -330,8 +394,6 @@ static void rse_case_N(Out &o, Rng &r, const std::vector<uint64_t> &freqs, const
   e.EndEncoding(&eb);
   std::vector<uint8_t> bytes((const uint8_t *)eb.data(), (const uint8_t *)eb.data() + eb.size());
   o.c(lhs, "c=1 " + hex(bytes.data(), bytes.size()));
-  // every symbol is encoded at most as often as its frequency says (see the callers): the reserved area must suffice
-  area_case_N<N>(o, freqs, syms, count_used(freqs) <= 600, "RAnsSymbolEncoder<" + S(N) + "> directly");
   std::vector<uint8_t> with = bytes; with.insert(with.end(), kSentinel, kSentinel + 3);
   uint8_t pre[4]; for (auto &p : pre) p = (uint8_t)r.next();
   {  // real round trip
@@ -430,6 +492,11 @@ int main(int argc, char **argv) {
   Out o(argv[3]);
   o.note("C08 tier=" + std::string(argv[1]) + " seed=" + argv[2]);
   for (int b = 0; b <= 40; b++) o.c("prec " + S(b), S(ComputeRAnsPrecisionFromUniqueSymbolsBitLength(b)));
+  // the level -> bit-length policy of the current code: replica (raw_bits_for) against the model's default_raw_bit_length
+  for (int b = 0; b <= 18; b++)
+    for (int64_t nu : {((int64_t)1 << b) - 1, (int64_t)1 << b, ((int64_t)1 << b) + 1})
+      for (int lvl = -1; lvl <= 10; lvl++)
+        if (nu >= 1 && nu < (1 << 18)) o.c("rbl " + S(nu) + " " + (lvl >= 0 ? S(lvl) : std::string("u")), S(raw_bits_for((size_t)nu, lvl)));
 
   // 1. EncodeSymbols: small/medium arrays, all distributions x schemes x levels x components
   int n_small = thorough ? 6000 : 700;
@@ -538,7 +605,8 @@ int main(int argc, char **argv) {
   o.note("cov tagged=" + S(g_cov[COV_TAGGED]) + " raw=" + S(g_cov[COV_RAW]) + " auto=" + S(g_cov[COV_AUTO]) + " enc_fail=" + S(g_cov[COV_ENC_FAIL]) +
          " dec_ok=" + S(g_cov[COV_DEC_OK]) + " dec_fail=" + S(g_cov[COV_DEC_FAIL]) + " create_false=" + S(g_cov[COV_CREATE_FALSE]) +
          " oldver=" + S(g_cov[COV_OLDVER]) + " big=" + S(g_cov[COV_BIG]) + " area_checks=" + S(g_cov[COV_AREA]) +
-         " area_model_cases=" + S(g_cov[COV_AREA_MODEL]) + " area_max_fill_pct=" + S(g_cov[COV_AREA_MAXPCT]));
+         " area_model_cases=" + S(g_cov[COV_AREA_MODEL]) + " area_max_fill_pct=" + S(g_cov[COV_AREA_MAXPCT]) +
+         " raw_bit_length_policy_diffs=" + S(g_cov[COV_POLICY]));
   fprintf(stderr, "h_C08: %ld cases, %ld direct failures\n", o.cases, o.fails);
   return 0;
 }
